@@ -152,7 +152,7 @@ EXPORT errno_t _mbsrtowcs_s_chk(size_t *restrict retvalp,
             }
             BND_CHK_PTR_BOUNDS(dest, destsz);
         } else {
-            if (unlikely(destsz > destbos || len * sizeof(wchar_t) > destbos)) {
+            if (unlikely(destsz > destbos || len > RSIZE_MAX_WSTR)) {
                 /* the object size is known: clear that much, as mbstowcs_s */
                 if (unlikely(dmax > RSIZE_MAX_WSTR || len > RSIZE_MAX_WSTR)) {
                     handle_werror(dest, destbos / sizeof(wchar_t),
@@ -204,18 +204,17 @@ EXPORT errno_t _mbsrtowcs_s_chk(size_t *restrict retvalp,
         rc = EOK;
     } else {
         if (dest) {
-            size_t tmp = 0;
-            errno = 0;
-            /* with NULL either 0 or -1 is returned */
-            if (*retvalp > RSIZE_MAX_WSTR) { /* else ESNOSPC */
-                tmp = mbsrtowcs(NULL, srcp, len - 1, &orig_ps);
-            }
-            rc = (tmp == 0) ? ESNOSPC : errno;
+            /* (size_t)-1 is the encoding error of the call above: its errno
+               is the code, a second conversion attempt cannot tell more */
+            const int illegal = *retvalp == (size_t)-1;
+            rc = illegal ? (errno ? errno : EILSEQ) : ESNOSPC;
+            if (illegal) /* leave the caller a usable conversion state */
+                memcpy(ps, &orig_ps, sizeof(orig_ps));
             /* the entire src must have been copied, if not reset dest
              * to null the string. (only with SAFECLIB_STR_NULL_SLACK) */
             handle_werror(orig_dest, dmax,
-                          !tmp ? "mbsrtowcs_s: not enough space for src"
-                               : "mbsrtowcs_s: illegal sequence",
+                          !illegal ? "mbsrtowcs_s: not enough space for src"
+                                   : "mbsrtowcs_s: illegal sequence",
                           rc);
         } else {
             rc = ((size_t)*retvalp == 0) ? EOK : errno;
